@@ -56,6 +56,17 @@ def strip_prefix(ns, s):
     return s
 
 
+def prefix_ns(s):
+    """(namespace id, rest) when s starts with the prefix of a non-main namespace (name or alias, any case)."""
+    low = s.lower()
+    for n, (name, others) in NS.items():
+        if n:
+            for pre in [name] + others:
+                if low.startswith(pre.lower() + ":"):
+                    return n, s[len(pre) + 1:]
+    return None
+
+
 def ucfirst(s):
     return s[:1].upper() + s[1:]
 
@@ -86,29 +97,23 @@ class Model:
     # -- lookups ----------------------------------------------------------------------------
     @staticmethod
     def find_none(store, s):
-        """Lookup without a namespace id: the prefix of the full title alone selects the namespace; a title
-        without a prefix is a main-namespace title.  The statement makes lookups insensitive to the prefix
-        being aliased / written in another case and lets a lower-case first letter find the upper-cased
-        page outside the main namespace; the pinned code matches the stored full title literally when no
-        namespace id is given.  Where the two readings differ the answer is SKIP (only the relation
-        'existence check == lookup, same arguments' is asserted there)."""
-        low = s.lower()
-        for n, (name, others) in NS.items():
-            if not n:
-                continue
-            for pre in [name] + others:
-                if low.startswith(pre.lower() + ":"):
-                    if not s.startswith(name + ":"):
-                        return SKIP
-                    rest = s[len(name) + 1:]
-                    r = store.get((n, rest))
-                    if r is None and ucfirst(rest) != rest and (n, ucfirst(rest)) in store:
-                        return SKIP
-                    return r
+        """Lookup without a namespace id: the prefix of the full title alone selects the namespace (given,
+        aliased or in another case -- lookups are insensitive to that), and the rules of that namespace
+        apply to the rest (lower-case first letter outside main); a title without a prefix is a
+        main-namespace title.  'main:' in another case: SKIP (see Model.find)."""
         if s.startswith("Main:"):
             return store.get((0, s[5:]))
-        if low.startswith("main:"):
+        if s.lower().startswith("main:"):
             return SKIP
+        pn = prefix_ns(s)
+        if pn is not None:
+            n, rest = pn
+            if not rest:
+                return None
+            r = store.get((n, rest))
+            if r is None:
+                r = store.get((n, ucfirst(rest)))
+            return r
         return store.get((0, s))
 
     @classmethod
@@ -144,7 +149,18 @@ class Model:
             # target written without a prefix, looked up without a namespace id: the redirect's namespace
             # or the main namespace?  not said
             return SKIP, SKIP
-        t = cls.find(store, ns, r.redirect)
+        tns = ns
+        if ns is not None:
+            # "a redirect resolves to its target's content": a target title that carries the prefix of another
+            # namespace names a page of that namespace; without a prefix (or with the redirect's own) the
+            # target is looked up like any title given together with the redirect's namespace
+            tgt = r.redirect.replace("_", " ")
+            pn = prefix_ns(tgt)
+            if pn is not None and pn[0] != r.ns:
+                tns = pn[0]
+            elif r.ns and tgt.lower().startswith("main:"):
+                return SKIP, SKIP
+        t = cls.find(store, tns, r.redirect)
         if t is SKIP:
             return SKIP, SKIP
         if t is None:
@@ -154,8 +170,12 @@ class Model:
         # target is itself a redirect: "one hop" gives no content.  Whether that is "no page" or "the
         # redirect page" is not said -> page level undetermined; body None unless the upper-cased twin
         # of a lower-case target exists (then "finds the upper-cased page" could apply as well).
-        tn = strip_prefix(ns, r.redirect.replace("_", " "))
-        if ns and ucfirst(tn) != tn and (ns, ucfirst(tn)) in store and (ns, tn) in store:
+        if tns is None:
+            pn = prefix_ns(r.redirect.replace("_", " "))
+            tns, tn = pn if pn is not None else (0, r.redirect.replace("_", " "))
+        else:
+            tn = strip_prefix(tns, r.redirect.replace("_", " "))
+        if tns and ucfirst(tn) != tn and (tns, ucfirst(tn)) in store and (tns, tn) in store:
             return SKIP, SKIP
         return SKIP, None
 
